@@ -126,6 +126,16 @@ Lemma eval_pairs_np cx fuel en ps :
   forallb (fun p => wf_expr (snd p)) ps = true -> eval_pairs cx fuel en ps <> Panic.
 Proof. apply expr_np. Qed.
 
+Lemma dump_args_np (ev : expr -> outcome value) args :
+  (forall a, In a args -> ev a <> Panic) -> dump_args ev args <> Panic.
+Proof.
+  induction args as [|a r IH]; intro H; cbn [dump_args]; [discriminate|].
+  destruct (ev a) as [v|ln msg| | |] eqn:E; try discriminate.
+  - destruct (dump_value 0 v); [|discriminate].
+    apply np_bind; [apply IH; intros x Hx; apply H; right; exact Hx|discriminate].
+  - exfalso. apply (H a (or_introl eq_refl)). exact E.
+Qed.
+
 Lemma bind_args_np cx f ln en ps : forall ne,
   forallb (fun p => wf_expr (snd p)) ps = true -> bind_args cx f ln en ps ne <> Panic.
 Proof.
@@ -211,6 +221,8 @@ Proof.
       intros en1 _. apply np_bind; [apply IHp, Hwf0|discriminate].
     + destruct body as [b|]; [|discriminate].
       apply np_bind; [apply IHb, Hwf|discriminate].
+    + apply np_bind; [|discriminate]. apply dump_args_np. intros a Ha. apply eval_expr_np.
+      rewrite forallb_forall in Hwf. exact (Hwf a Ha).
   - (* eval_block *)
     intros en ss acc Hwf. destruct ss as [|s ss]; cbn [eval_block]; [discriminate|].
     cbn [forallb] in Hwf. split_wf Hwf.
